@@ -190,8 +190,19 @@ func c10(c *Ctx) {
 				}
 				for _, in := range b.Instrs {
 					if ret, ok := an.AsReturn(in); ok {
-						if k, ok := an.RetVal(ret, 0).(*ssa.Const); ok {
+						v := an.RetVal(ret, 0)
+						if k, ok := v.(*ssa.Const); ok {
 							res[t] += k.Value.String()
+							continue
+						}
+						// `_, isAck := msg.(*objects.MsgsAck); return !isAck`: the outcome of the assertion itself
+						if cd, ok := an.ClassifyValue(v); ok && cd.Kind == "assert" {
+							holds := typeString(cd.Assert.AssertedType) == t
+							if cd.TrueIsEqual == holds {
+								res[t] += "true"
+							} else {
+								res[t] += "false"
+							}
 						}
 					}
 				}
